@@ -274,7 +274,15 @@ pub(crate) fn as_varint(value: i32) -> Vec<u8> {
 }
 
 pub(crate) fn get_string<B: ByteOrder>(buffer: &mut Buffer<B>) -> GDResult<String> {
-    let length = get_varint(buffer)? as usize;
+    let length = get_varint(buffer)?;
+    // the declared length can neither be negative nor exceed what is left of the packet
+    if length < 0 || length as usize > buffer.remaining_length() {
+        return Err(PacketBad.context(format!(
+            "String length {length} is not within the remaining {} bytes",
+            buffer.remaining_length()
+        )));
+    }
+    let length = length as usize;
     let mut text = Vec::with_capacity(length);
 
     for _ in 0 .. length {
